@@ -16,10 +16,15 @@ CONSTANTS
   FixRevertVerify = TRUE
   FixUnderflow = TRUE
   Fine = FALSE
-  EmptyDiff = {2, 4}
+  EmptyDiff = {}
   RootCheckedOnEmptyDiff = TRUE
   VerdictPerAnswer = TRUE
+  ClassA = {2, 3, 4}
+  ClassB = {2}
+  SierraSet = {2}
+  RememberKnown = FALSE
+  Windows = FALSE
 SPECIFICATION FairSpec
-INVARIANTS TypeOK LocalIsSourceBlocks ReorgExact StoredOnlyVerified
-PROPERTIES RestartIsNoOp EventuallyConverges StoreSafe HeadMovesOnlyByStoreOrRevert RevertsJustified RevertsHaveEvidence
+INVARIANTS TypeOK LocalIsSourceBlocks ReorgExact StoredOnlyVerified ClassesExact StoredClassesComplete KnownIsCurrent
+PROPERTIES RestartIsNoOp EventuallyConverges StoreSafe HeadMovesOnlyByStoreOrRevert RevertsJustified RevertsHaveEvidence NewClassesSufficient
 CHECK_DEADLOCK TRUE
